@@ -19,7 +19,7 @@ def main():
     tier, cases_file = sys.argv[1], sys.argv[2]
     data = json.load(open(cases_file))
     chk = Collector("C11", "exploration", tier)
-    from props import c02, c05, c08, c13, c14, c15, c16, c17
+    from props import c02, c03, c05, c06, c07, c08, c09, c10, c13, c14, c15, c16, c17
     import random
     quick = tier == "quick"
     jobs = []
@@ -43,6 +43,16 @@ def main():
     hists.append([{"f": rngd.choice(fns), "m": rngd.randrange(0, 7), "div": 0, "ovh": 0} for _ in range(200 if quick else 2000)])
     jobs += [("ASan: histories of the *_simple functions", c15.drive_hist, (hists,))]
     jobs += [("ASan: numeric conversions", c14.drive, (0, [4, 8, 16] if quick else [1, 2, 4, 8, 16, 64], True))]
+    # q120: products of every kind (both variants, several lengths), layout conversions and block maps, NTT on the module path
+    jobs += [("ASan: q120 products", c10.drive_products, (0, [0, 1, 2, 3, 7, 64, 257], 2)),
+             ("ASan: q120 products on boundary operands", c10.drive_halves, (0, 25 if quick else 200)),
+             ("ASan: q120 conversions and block maps", c10.drive_conversions, (8 if quick else 60,)),
+             ("ASan: NTT120 transforms", c03.drive, ([2, 4, 16, 64] if quick else [2, 4, 8, 16, 64, 256, 1024], True)),
+             ("ASan: NTT120 modules", c03.drive_module, (True,))]
+    # ring maps (kernels and wrappers), coefficient kernels in both variants, the transforms
+    jobs += [("ASan: ring maps N=%d" % n_, c09.drive_b, (n_, n_ <= 8, True)) for n_ in ((4, 8, 64) if quick else (2, 4, 8, 16, 64, 256))]
+    jobs += [("ASan: coefficient kernels", c07.drive_znx, (True,)),
+             ("ASan: transforms", c06.drive, ([1, 2, 4, 8, 16, 32] if quick else [1, 2, 4, 8, 16, 32, 64, 256], True))]
     common.isolated_many(chk, jobs, timeout=1500, nproc=8)
     print(json.dumps({"violations": [[d, p] for (d, p) in chk.violations], "evaluations": chk.evals,
                       "distinct": len(chk.distinct), "known": chk.known_hits}, default=str))
